@@ -87,6 +87,18 @@ def _rt(t, base, boff, poff):
     return t
 
 
+def _calls(fd, *names):
+    return any(b["t"].get("k") == "call" and b["t"].get("callee", {}).get("name") in names for b in fd["blocks"])
+
+
+# helpers the rules look for by what they are, not by what they are called: a rule evaluates such a function as a unit (its decision
+# table), so it stays a function wherever it is moved or however it is renamed
+KEEP = [
+    # C05: the non-admin whitelist predicate — a boolean function over the staged commit's queued proposals
+    lambda fd: fd.get("ret") == "bool" and _calls(fd, "queued_proposals"),
+]
+
+
 class Inliner:
     def __init__(self, facts, deny=None):
         self.facts = facts
@@ -113,6 +125,8 @@ class Inliner:
         if fd.get("name") in self.deny and fd.get("name") not in COMMON_NAMES:
             return False
         if self.known is None or p in self.known:
+            return False
+        if any(k(fd) for k in KEEP):
             return False
         if len(fd["blocks"]) > 400:
             return False
